@@ -210,7 +210,7 @@ def eval_case(ctx, case):
     got = {n for n in facts["type_decls"] if not n.endswith("_Call") and not n.endswith("_Expecter")}
     if got != set(exp.values()) or any(c != 1 for c in facts["type_decls"].values()):
         return Verdict.violated("mock types %s, expected %s" % (sorted(got), sorted(exp.values())), obs, tags)
-    v = core.go_vet(root)
+    v = core.go_compile(root)
     if v.timed_out:
         return Verdict.inconclusive("watchdog vet")
     if v.exit != 0:
